@@ -33,3 +33,86 @@ Proof. exact append_after_torn_tail_refuted. Qed.
 Print Assumptions C16_append_after_torn_tail_refuted.
 
 (** * C15: a single changed byte *)
+
+
+(** * Torn tails at the level of the reader that recovery uses ([Recover.read_all_x]: records,
+    [rx_skipped], [rx_intact]) and of the whole protocol *)
+From Coq Require Import List NArith Bool Arith.
+From RainVerif.model Require Import Table TableSpec Gc Recover Proto.
+From RainVerif.proofs Require Import ContentsProofs ProtoDurable ProtoSteps ProtoOpen ProtoInstall ProtoProofs.
+From RainVerif.proofs Require LogXProofs.
+(** * M1: the log reader with [rx_skipped] / [rx_intact] *)
+
+Theorem C16_reader_x_records : forall B H crc f,
+  rx_records (read_all_x B H crc f) = fst (read_all B H crc true f).
+Proof. exact reader_x_records. Qed.
+Print Assumptions C16_reader_x_records.
+
+Theorem C16_reader_x_panic : forall B H crc f,
+  rx_panic (read_all_x B H crc f) = snd (read_all B H crc true f).
+Proof. exact reader_x_panic. Qed.
+Print Assumptions C16_reader_x_panic.
+
+Theorem C16_reader_x_sessions : forall sessions,
+  log_read_all_x (log_write_sessions [] sessions) = mkRX (concat sessions) false 0 true.
+Proof. exact reader_x_sessions. Qed.
+Print Assumptions C16_reader_x_sessions.
+
+Theorem C16_reader_x_prefix : forall sessions n,
+  exists k i, log_read_all_x (firstn n (log_write_sessions [] sessions))
+              = mkRX (firstn k (concat sessions)) false 0 i.
+Proof. exact reader_x_prefix. Qed.
+Print Assumptions C16_reader_x_prefix.
+
+Theorem C16_reader_x_torn_append : forall f recs boff r t,
+  LogXProofs.logfile f recs boff -> (t < length (fst (log_append boff r)))%nat ->
+  exists i, log_read_all_x (f ++ firstn t (fst (log_append boff r))) = mkRX recs false 0 i.
+Proof. exact reader_x_torn_append. Qed.
+Print Assumptions C16_reader_x_torn_append.
+
+Theorem C16_reader_x_torn_intact : forall f recs boff r t,
+  LogXProofs.logfile f recs boff -> (t < length (fst (log_append boff r)))%nat ->
+  rx_intact (log_read_all_x (f ++ firstn t (fst (log_append boff r)))) = true ->
+  LogXProofs.logfile (f ++ firstn t (fst (log_append boff r))) recs
+                     (blen (f ++ firstn t (fst (log_append boff r))) mod BLOCK_SIZE_BYTES).
+Proof. exact reader_x_torn_intact. Qed.
+Print Assumptions C16_reader_x_torn_intact.
+
+Theorem C16_reader_x_prefix_intact : forall f recs boff n,
+  LogXProofs.logfile f recs boff -> rx_intact (log_read_all_x (firstn n f)) = true ->
+  exists k, LogXProofs.logfile (firstn n f) (firstn k recs) (blen (firstn n f) mod BLOCK_SIZE_BYTES).
+Proof. exact reader_x_prefix_intact. Qed.
+Print Assumptions C16_reader_x_prefix_intact.
+
+Theorem C16_reader_x_torn_single_fragment : forall f recs boff r t,
+  LogXProofs.logfile f recs boff -> (0 < t < length (fst (log_append boff r)))%nat ->
+  boff + HEADER_LENGTH_BYTES + blen r <= BLOCK_SIZE_BYTES ->
+  log_read_all_x (f ++ firstn t (fst (log_append boff r))) = mkRX recs false 0 false.
+Proof. exact reader_x_torn_single_fragment. Qed.
+Print Assumptions C16_reader_x_torn_single_fragment.
+
+(** the well formed logs are closed under appending with the writer and reopening *)
+Theorem C16_logfile_append : forall f recs boff r, LogXProofs.logfile f recs boff ->
+  LogXProofs.logfile (f ++ fst (log_append boff r)) (recs ++ [r]) (snd (log_append boff r)).
+Proof. exact LogXProofs.logfile_append. Qed.
+Print Assumptions C16_logfile_append.
+
+Theorem C16_logfile_reopen : forall f recs boff, LogXProofs.logfile f recs boff ->
+  LogXProofs.logfile f recs (blen f mod BLOCK_SIZE_BYTES).
+Proof. exact LogXProofs.logfile_reopen. Qed.
+Print Assumptions C16_logfile_reopen.
+
+(** * M2: CURRENT *)
+
+(** every crash point of every run, the last file operation torn at any byte: the database opens
+    and holds exactly the acknowledged batches ([torn = Some k] is the torn tail) *)
+Theorem C16_crash_recovery_succeeds : forall ops,
+  run_okP prun_init ops -> pr_failed (fst (p_run prun_init ops)) = false ->
+  forall n torn, (n <= length (snd (p_run prun_init ops)))%nat ->
+  let img := crash_image empty_image (snd (p_run prun_init ops)) n torn in
+  i_current img = None \/
+  exists rc, recover_image img = inl rc /\
+     rec_contents img rc = replay [] (firstn (crash_k prun_init ops n torn) (acked_batches 0 ops)) /\
+     rc_seq rc = nops (firstn (crash_k prun_init ops n torn) (acked_batches 0 ops)).
+Proof. exact crash_recovery_succeeds_P. Qed.
+Print Assumptions C16_crash_recovery_succeeds.
